@@ -51,6 +51,13 @@ def scratch():
                 base = os.environ.get("VERIF_SCRATCH", "/var/tmp/verif-scratch")
                 d = os.path.join(base, "p%d" % os.getpid())
                 shutil.rmtree(d, ignore_errors=True)
+                # scratch directories of runs that were killed (no atexit): remove those whose process is gone
+                try:
+                    for name in os.listdir(base):
+                        if name.startswith("p") and name[1:].isdigit() and not os.path.exists("/proc/" + name[1:]):
+                            shutil.rmtree(os.path.join(base, name), ignore_errors=True)
+                except OSError:
+                    pass
                 os.makedirs(d, exist_ok=True)
                 if not os.environ.get("VERIF_KEEP"):
                     atexit.register(shutil.rmtree, d, True)
